@@ -66,6 +66,28 @@ func c01Bulk(b int) []refdb.Doc {
 
 const c01Universe = 5
 
+// c01BigBulk: one bulk of 2500 documents with high-entropy tokens — its compressed meta block is far larger than
+// 64 KiB (the blocks of the ordinary bulks are a few hundred bytes). Not part of the universe every recovery checks.
+func c01BigBulk() []refdb.Doc {
+	docs := make([]refdb.Doc, 2500)
+	x := uint32(2463534242)
+	rnd := func(n int) string {
+		b := make([]byte, n)
+		for i := range b {
+			x ^= x << 13
+			x ^= x >> 17
+			x ^= x << 5
+			b[i] = byte('a' + x%26)
+		}
+		return string(b)
+	}
+	for i := range docs {
+		docs[i] = refdb.Doc{ID: refdb.ID{MID: uint64(2000 + i/3), RID: uint64(i + 1)}, Body: fmt.Sprintf(`{"big":%d,"p":"%s"}`, i, rnd(8+i%23)),
+			Toks: []refdb.Tok{{F: "u", V: fmt.Sprintf("big%d", i)}, {F: "s", V: rnd(14)}, {F: "p", V: rnd(11)}}}
+	}
+	return docs
+}
+
 // ---- worker ----
 
 type stageJob struct {
@@ -78,6 +100,10 @@ type stageJob struct {
 	// CancelFirst: the start-up is first attempted with an already cancelled context (the process is told to stop
 	// while it loads: SIGTERM during start) and abandoned, then the store is started normally on the same directory
 	CancelFirst bool `json:"cancel_first,omitempty"`
+	// Big: the large-block history. BigIngest: this stage ingests [bulk 1, the big bulk, bulk 2]; the answer lists only
+	// the documents of these three bulks that are not served correctly.
+	Big       bool `json:"big,omitempty"`
+	BigIngest bool `json:"big_ingest,omitempty"`
 }
 
 type docStatus struct {
@@ -96,51 +122,69 @@ type stageResult struct {
 }
 
 func c01Status(fm *fracmanager.FracManager) []docStatus {
+	var docs []refdb.Doc
+	var bulks []int
+	for b := 1; b <= c01Universe; b++ {
+		for _, d := range c01Bulk(b) {
+			docs = append(docs, d)
+			bulks = append(bulks, b)
+		}
+	}
+	res := c01StatusOf(fm, docs, false)
+	for i := range res {
+		res[i].Bulk = bulks[i]
+	}
+	return res
+}
+
+// c01StatusOf judges every given document: fetched byte for byte and found by each of its tokens.
+// onlyBad: return only the documents that are not "ok" (large histories).
+func c01StatusOf(fm *fracmanager.FracManager, all []refdb.Doc, onlyBad bool) []docStatus {
 	var res []docStatus
 	searcher := fracmanager.NewSearcher(2, fracmanager.SearcherCfg{FractionsPerIteration: 2})
 	fetcher := fracmanager.NewFetcher(2)
 	fracs := fm.GetAllFracs()
-	for b := 1; b <= c01Universe; b++ {
-		for _, d := range c01Bulk(b) {
-			st := docStatus{Bulk: b, ID: fmt.Sprintf("%d.%d", d.ID.MID, d.ID.RID)}
-			docs, err := fetcher.FetchDocs(context.Background(), fracs, []seq.IDSource{{ID: vfrac.SeqID(d.ID)}})
-			found := 0
-			switch {
-			case err != nil:
-				st.Status = "error:fetch:" + err.Error()
-			case len(docs) != 1 || len(docs[0]) == 0:
-				st.Status = "absent"
-			case string(docs[0]) != d.Body:
-				st.Status = fmt.Sprintf("wrong-bytes:%q", docs[0])
-			default:
-				st.Status = "ok"
+	for _, d := range all {
+		st := docStatus{ID: fmt.Sprintf("%d.%d", d.ID.MID, d.ID.RID)}
+		docs, err := fetcher.FetchDocs(context.Background(), fracs, []seq.IDSource{{ID: vfrac.SeqID(d.ID)}})
+		found := 0
+		switch {
+		case err != nil:
+			st.Status = "error:fetch:" + err.Error()
+		case len(docs) != 1 || len(docs[0]) == 0:
+			st.Status = "absent"
+		case string(docs[0]) != d.Body:
+			st.Status = fmt.Sprintf("wrong-bytes:%q", docs[0])
+		default:
+			st.Status = "ok"
+		}
+		// findable by each of its tokens
+		for _, tk := range d.Toks {
+			pq, perr := vfrac.Parse(refdb.Lit{Field: tk.F, Pattern: tk.V})
+			if perr != nil {
+				panic(perr)
 			}
-			// findable by each of its tokens
-			for _, tk := range d.Toks {
-				pq, perr := vfrac.Parse(refdb.Lit{Field: tk.F, Pattern: tk.V})
-				if perr != nil {
-					panic(perr)
-				}
-				qpr, serr := searcher.SearchDocs(context.Background(), fracs, vfrac.Params(pq, 0, vfrac.MaxMID, false, 1000, false))
-				if serr != nil {
-					st.Status = "error:search:" + serr.Error()
-					break
-				}
-				has := false
-				for _, id := range qpr.IDs {
-					if vfrac.RefID(id.ID) == d.ID {
-						has = true
-					}
-				}
-				if has {
-					found++
-				} else if st.Status == "ok" {
-					st.Status = "search-miss:" + tk.F + ":" + tk.V
+			qpr, serr := searcher.SearchDocs(context.Background(), fracs, vfrac.Params(pq, 0, vfrac.MaxMID, false, 1000, false))
+			if serr != nil {
+				st.Status = "error:search:" + serr.Error()
+				break
+			}
+			has := false
+			for _, id := range qpr.IDs {
+				if vfrac.RefID(id.ID) == d.ID {
+					has = true
 				}
 			}
-			if st.Status == "absent" && found > 0 {
-				st.Status = "phantom-search" // listed by search but not fetchable
+			if has {
+				found++
+			} else if st.Status == "ok" {
+				st.Status = "search-miss:" + tk.F + ":" + tk.V
 			}
+		}
+		if st.Status == "absent" && found > 0 {
+			st.Status = "phantom-search" // listed by search but not fetchable
+		}
+		if !onlyBad || st.Status != "ok" {
 			res = append(res, st)
 		}
 	}
@@ -171,6 +215,21 @@ func c01Handle(raw json.RawMessage) any {
 	if err := fm.Load(context.Background()); err != nil {
 		res.LoadErr = err.Error()
 		res.Journal = vos.Journal()
+		return res
+	}
+	if job.Big {
+		if job.BigIngest {
+			for _, blk := range [][]refdb.Doc{c01Bulk(1), c01BigBulk(), c01Bulk(2)} {
+				d, m := vfrac.BuildBulk(blk, 1)
+				if err := fm.Append(context.Background(), d, m); err != nil {
+					res.LoadErr = "append: " + err.Error()
+					return res
+				}
+			}
+			fm.WaitIdle()
+		}
+		res.Before = c01StatusOf(fm, append(append(c01Bulk(1), c01BigBulk()...), c01Bulk(2)...), true)
+		vos.SetRoot("")
 		return res
 	}
 	res.Before = c01Status(fm)
@@ -380,7 +439,9 @@ func tailStr(s string, n int) string {
 }
 
 type c01Case struct {
-	Path []c01Step `json:"path"`
+	Path    []c01Step `json:"path"`
+	Big     bool      `json:"big,omitempty"` // the large-block history (re-run as a whole)
+	BigStep int       `json:"big_step,omitempty"`
 }
 
 // explore runs the BFS from node n at the given depth.
@@ -522,6 +583,39 @@ func (e *c01Explorer) replay(path []c01Step) {
 	}
 }
 
+// c01BigHistory: see the comment inside.
+func c01BigHistory(r *vlib.Run, e *c01Explorer) {
+	// ---- large-block history: [bulk 1, a 2500-document bulk, bulk 2] acknowledged, then three plain restarts (the
+	// second one with an interrupted first start): every document is served after each of them. No crash points here:
+	// the point is the size of one block in the meta file.
+	if !r.Expired() {
+		dir := vfrac.MkTmp("c01big")
+		for step := 0; step < 4; step++ {
+			var res stageResult
+			jr, err := e.pool.Do(stageJob{Dir: dir, Big: true, BigIngest: step == 0, CancelFirst: step == 2}, &res, 300*time.Second)
+			if err != nil {
+				panic(err)
+			}
+			r.Add("evaluations", 1)
+			r.Add("large_block_restarts", 1)
+			c := c01Case{Big: true, BigStep: step}
+			what := []string{"after ingest", "after restart 1", "after an interrupted start and restart 2", "after restart 3"}[step]
+			switch {
+			case jr.Died || jr.Hung:
+				r.Violation("large-block history: store-does-not-come-back "+what+" cause="+normCause(firstCause(jr.Stderr)), c, tailStr(jr.Stderr, 1500))
+			case res.LoadErr != "":
+				r.Violation("large-block history: load-error "+what+" "+normCause(res.LoadErr), c, res.LoadErr)
+			case len(res.Before) > 0:
+				r.Violation(fmt.Sprintf("large-block history: documents-not-served %s first=%s", what, normCause(res.Before[0].Status)), c, fmt.Sprintf("%d of 2505 documents are not served, e.g. %+v", len(res.Before), res.Before[:min(5, len(res.Before))]))
+			}
+			if jr.Died || jr.Hung || res.LoadErr != "" {
+				break
+			}
+		}
+		os.RemoveAll(dir)
+	}
+}
+
 func TestVerifC01(t *testing.T) {
 	r := vlib.NewRun("C01")
 	pool := vlib.NewPool("c01", vlib.Workers())
@@ -529,7 +623,11 @@ func TestVerifC01(t *testing.T) {
 	e := &c01Explorer{r: r, pool: pool, seen: map[string]bool{}}
 	var rc c01Case
 	if r.LoadReplay(&rc) {
-		e.replay(rc.Path)
+		if rc.Big {
+			c01BigHistory(r, e)
+		} else {
+			e.replay(rc.Path)
+		}
 		r.Finish(t, "fault_enumeration", "replay", nil, nil)
 		return
 	}
@@ -558,9 +656,10 @@ func TestVerifC01(t *testing.T) {
 		e.explore(root, 0)
 	}
 	e.plan = nil
+	c01BigHistory(r, e)
 	ev := r.Get("evaluations")
 	r.Finish(t, "fault_enumeration",
-		fmt.Sprintf("stage plans %v (ingest per stage; last stage verifies only): stage 1 from an empty directory; every crash state of each stage's file-operation journal (Model A: every prefix x every torn length of the in-flight write; Model B: additionally every cut of unsynced tails per file and lost unsynced overwrites), de-duplicated by a canonical hash (fraction ULIDs renamed in creation order), is recovered by the real FracManager.Load in a child process, checked (every document of every bulk: fetch byte-for-byte + findable by each token; acked => present, unacked => wholly present or wholly absent, never-sent => absent), then used as the base of the next stage. Torn lengths: every byte length for the 2-restart plan, stride 16 + header borders for the deeper plan. A subset of stage-1 states is validated against a child that really dies at that journal position (killat_conformance_checked). distinct_nontrivial = distinct (depth, canonical directory, acked set) states recovered", planDesc),
+		fmt.Sprintf("stage plans %v (ingest per stage; last stage verifies only): stage 1 from an empty directory; every crash state of each stage's file-operation journal (Model A: every prefix x every torn length of the in-flight write; Model B: additionally every cut of unsynced tails per file and lost unsynced overwrites), de-duplicated by a canonical hash (fraction ULIDs renamed in creation order), is recovered by the real FracManager.Load in a child process, checked (every document of every bulk: fetch byte-for-byte + findable by each token; acked => present, unacked => wholly present or wholly absent, never-sent => absent), then used as the base of the next stage. Torn lengths: every byte length for the 2-restart plan, stride 16 + header borders for the deeper plan. Plus one large-block history: a 2500-document bulk (a meta block far over 64 KiB) between two small ones, then three plain restarts, one of them after an interrupted start. A subset of stage-1 states is validated against a child that really dies at that journal position (killat_conformance_checked). distinct_nontrivial = distinct (depth, canonical directory, acked set) states recovered", planDesc),
 		map[string]any{
 			"states":                        r.DistinctCount("nontrivial"),
 			"transitions":                   ev,
